@@ -58,7 +58,7 @@ func c06Body(t *rapid.T) {
 	st := stats.New("C06")
 	sameTarget := rapid.Bool().Draw(t, "sameTarget")
 	packerMax := rapid.SampledFrom([]int{1, 1, 2, 3}).Draw(t, "packerMax")
-	class := rapid.SampledFrom([]string{"write_rejected", "write_rejected", "checkpoint_rejected", "unknown_partition", "ddl_rejected", "ddl_rejected"}).Draw(t, "class")
+	class := rapid.SampledFrom([]string{"write_rejected", "write_rejected", "checkpoint_rejected", "unknown_partition", "ddl_rejected", "ddl_rejected", "start_rejected"}).Draw(t, "class")
 	persistent := rapid.Bool().Draw(t, "persistent")
 	if class == "ddl_rejected" && !persistent {
 		// a single rejected DDL is usually absorbed by the writer's retry; the persistent form is the one that pauses the task
@@ -206,6 +206,22 @@ func c06Body(t *rapid.T) {
 		if !waitTicking(p, pchs, 15*time.Second, func() bool { return fired.Load() > 0 }) {
 			t.Fatalf("VERIF-TROUBLE C06: the create-collection DDL of the new collection never reached the downstream")
 		}
+	case "start_rejected":
+		// the failure hits while the task (re)starts its collection: A is paused by request, the downstream refuses the lookup
+		// of A's collection (not a "not found"), A is resumed: the collection cannot be started
+		persistent = true
+		if r := w.inc.post(t, "pause", map[string]any{"task_id": idA}); r.Code != 200 {
+			t.Fatalf("VERIF-TROUBLE C06: pause of A failed: %s", r.Raw)
+		}
+		w.targets[ta].Before = func(cc *milvus.CallCtx) error {
+			if r, ok := cc.Req.(*milvuspb.DescribeCollectionRequest); ok && r.GetCollectionName() == "ca" {
+				fired.Add(1)
+				return fmt.Errorf("injected: permission deny")
+			}
+			return nil
+		}
+		// (the answer of the resume request itself is not judged here: the start may fail inside or after it)
+		w.inc.post(t, "resume", map[string]any{"task_id": idA})
 	case "checkpoint_rejected":
 		w.inc.store.setHook(func(op *storeOp) error {
 			if op.Kind == "pos.put" && op.Task == idA && (persistent || fired.Load() == 0) {
@@ -294,6 +310,9 @@ func c06Body(t *rapid.T) {
 	}
 	if !paused || sA != "Paused" {
 		t.Fatalf("VERIF-VIOLATION C06 [%s]: the failing task A is %s (reason %q) instead of Paused; B is %s %q", desc, sA, rA, sB, rB)
+	}
+	if class == "start_rejected" && strings.Contains(rA, "manually") {
+		t.Fatalf("VERIF-VIOLATION C06 [%s]: the collection of task A could not be started after the resume, but the task shows the reason of the earlier pause request (%q) instead of the failure", desc, rA)
 	}
 	if strings.TrimSpace(rA) == "" {
 		t.Fatalf("VERIF-VIOLATION C06 [%s]: task A is Paused without a reason visible through get", desc)
